@@ -29,12 +29,15 @@ def rewrite_lines(
     found_patterns: typ.Set[Pattern] = set()
 
     new_lines = old_lines[:]
-    for match in parse.iter_matches(old_lines, patterns):
+    # Several patterns may match on one line. The spans refer to the old line, so the
+    # matches of a line are applied right to left, each on the line as rewritten so far.
+    matches = sorted(parse.iter_matches(old_lines, patterns), key=lambda m: (m.lineno, m.span), reverse=True)
+    for match in matches:
         found_patterns.add(match.pattern)
         replacement = v1version.format_version(new_vinfo, match.pattern.raw_pattern)
         span_l, span_r = match.span
-        new_line = match.line[:span_l] + replacement + match.line[span_r:]
-        new_lines[match.lineno] = new_line
+        cur_line = new_lines[match.lineno]
+        new_lines[match.lineno] = cur_line[:span_l] + replacement + cur_line[span_r:]
 
     non_matched_patterns = set(patterns) - found_patterns
     if non_matched_patterns:
